@@ -363,6 +363,14 @@ def canon(obj) -> str:
     return json.dumps(obj, sort_keys=True, ensure_ascii=True, default=_json_default)
 
 
+def jsonify(obj):
+    """The object as it comes back from its own JSON text.  Executions start from this form so
+    that a run and the replay of its recorded trace agree even on object identity: equal strings
+    that are one shared object in a freshly generated trace are memoised by pickle (rope's
+    data files), which changes the saved bytes and with them the byte-prefix crash states."""
+    return json.loads(json.dumps(obj, default=_json_default))
+
+
 def short_hash(obj) -> str:
     return hashlib.sha256(canon(obj).encode()).hexdigest()[:16]
 
